@@ -225,6 +225,17 @@ Theorem rows_of_tokens : forall nd ts rows ps,
 Proof. exact rows_of_tokens_l. Qed.
 Print Assumptions rows_of_tokens.
 
+(* The same over RAW token streams: for every request whose element / line streams pass the boolean well-formedness test the check evaluates on
+   every observed stream (stream_wf: the stream parses to one value, re-serialises to itself, its numbers do not start with '+'), the walk's rows
+   are one per pushed span with its tag rows, and the stored token stream of each row reads back as the pushed span. *)
+Theorem read_back_token_streams : forall nd tss rows ps,
+  forallb stream_wf tss = true ->
+  zt_decode fixed false nd tss = Some rows -> pushed_of (zin nd tss) = Some ps ->
+  Forall2 row_of ps (map fst rows) /\ Forall2 tags_of ps (map snd rows) /\
+  Forall2 (fun p sr => reads_back p (read_row_tok fixed tss (fst sr))) ps rows.
+Proof. exact read_back_token_streams_l. Qed.
+Print Assumptions read_back_token_streams.
+
 (* An NDJSON line holding anything after the span object is refused (since the repair; before it the whole line was stored as the
    payload and the read path returned no span for it: legacy_nd_tail_unreadable in the proofs file). *)
 Theorem trailing_text_is_refused : forall q st t extra, jt_ok t = true -> extra <> [] ->
